@@ -294,6 +294,35 @@ fn mask_strings(text: &str) -> String {
     out
 }
 
+/// Split an argument list at the commas that are outside string literals and square brackets.
+fn split_arguments(args: &str) -> Vec<&str> {
+    let mut parts = Vec::new();
+    let mut quote: Option<char> = None;
+    let mut depth = 0usize;
+    let mut start = 0;
+    for (i, ch) in args.char_indices() {
+        match quote {
+            Some(q) => {
+                if ch == q {
+                    quote = None;
+                }
+            }
+            None => match ch {
+                '"' | '\'' => quote = Some(ch),
+                '[' => depth += 1,
+                ']' => depth = depth.saturating_sub(1),
+                ',' if depth == 0 => {
+                    parts.push(&args[start..i]);
+                    start = i + 1;
+                }
+                _ => {}
+            },
+        }
+    }
+    parts.push(&args[start..]);
+    parts
+}
+
 /// GRL (Grule Rule Language) Parser
 /// Parses Grule-like syntax into Rule objects
 pub struct GRLParser;
@@ -1925,7 +1954,7 @@ impl GRLParser {
                 }
                 "schedulerule" | "schedule_rule" => {
                     // Parse delay and target rule: ScheduleRule(5000, "next-rule")
-                    let parts: Vec<&str> = args_str.split(',').collect();
+                    let parts: Vec<&str> = split_arguments(args_str);
                     if parts.len() != 2 {
                         return Err(RuleEngineError::ParseError {
                             message: "ScheduleRule requires delay_ms and rule_name".to_string(),
@@ -2023,7 +2052,7 @@ impl GRLParser {
 
         // Handle expressions like: $TestCar.Speed + $TestCar.SpeedIncrement
         let mut args = Vec::new();
-        let parts: Vec<&str> = args_str.split(',').collect();
+        let parts: Vec<&str> = split_arguments(args_str);
 
         for part in parts {
             let trimmed = part.trim();
@@ -2053,7 +2082,7 @@ impl GRLParser {
         }
 
         // Parse positional parameters as numbered args
-        let parts: Vec<&str> = args_str.split(',').collect();
+        let parts: Vec<&str> = split_arguments(args_str);
         for (i, part) in parts.iter().enumerate() {
             let trimmed = part.trim();
             let value = self.parse_value(trimmed)?;
